@@ -48,10 +48,11 @@ const (
 	fSig         // signature destroyed
 	fBadTx       // a transaction with a forged signature inserted, roots recomputed, re-signed
 	fHeight      // header block number raised, re-signed (not parent+1)
+	fTurn        // timestamp altered and re-signed; the (simulated) consensus check refuses the block: not this producer's slot
 	fMax
 )
 
-var forgeName = []string{"honest", "bad-state-root", "bad-receipts-root", "bad-tx-root", "altered-body-genuine-id", "altered-id-genuine-body", "bad-signature", "forged-tx-inside", "bad-height"}
+var forgeName = []string{"honest", "bad-state-root", "bad-receipts-root", "bad-tx-root", "altered-body-genuine-id", "altered-id-genuine-body", "bad-signature", "forged-tx-inside", "bad-height", "out-of-turn"}
 
 type blkInfo struct {
 	b       *types.Block
@@ -293,6 +294,16 @@ func (w *World) Run(x *simkit.Ctx) {
 			{Op: "deliver", A: 2}, {Op: "deliver", A: 1},
 		}
 	}
+	// C05/C07/C04 runs open, a quarter of the time, with a block that carries transactions and is refused
+	// by the consensus check, directly followed by a block with a forged transaction: whatever the
+	// refused block started (its signatures are verified asynchronously) must not vouch for the next one.
+	if (prop == "C05" || prop == "C07" || prop == "C04") && len(script) == 0 && x.CfgInt("vetoopening", func(r *simkit.Rng) int { return r.Pick(3, 1) }) == 1 {
+		script = []*simkit.Step{
+			{Op: "tx", K: []int{1, 0, 1, 0}, V: 5}, {Op: "tx", K: []int{1, 1, 0, 0}, V: 7}, {Op: "build"},
+			{Op: "forge", A: 0, B: 0, C: fTurn}, {Op: "forge", A: 0, B: 0, C: fBadTx},
+			{Op: "deliver", A: 1}, {Op: "deliver", A: 2}, {Op: "deliver", A: 0},
+		}
+	}
 	gen := func(r *simkit.Rng) *simkit.Step {
 		if len(x.Case.Steps) >= nsteps+len(script) || e.dead {
 			return nil
@@ -522,6 +533,8 @@ func (e *env) doForge(tip, back, kind int) {
 				c.Header.Sign = flip(c.Header.Sign)
 			case fHeight:
 				c.Header.BlockNo += uint64(1 + len(seg)%3)
+			case fTurn:
+				c.Header.Timestamp += 1 + int64(len(seg)%5)
 			case fBadTx:
 				t := simnode.SignedTx(e.net.Accounts[0], 1, e.net.Accounts[1%len(e.net.Accounts)].Addr, big.NewInt(7), types.TxType_TRANSFER, nil, e.builders[0].ChainIDHash(), 0)
 				t.Body.Account = e.net.Accounts[1%len(e.net.Accounts)].Addr
@@ -535,7 +548,7 @@ func (e *env) doForge(tip, back, kind int) {
 		} else {
 			c.Header.PrevBlockHash = prevHash
 		}
-		resign := (i == 0 && (kind == fStateRoot || kind == fReceiptRoot || kind == fTxRoot || kind == fBadTx || kind == fHeight)) || i > 0
+		resign := (i == 0 && (kind == fStateRoot || kind == fReceiptRoot || kind == fTxRoot || kind == fBadTx || kind == fHeight || kind == fTurn)) || i > 0
 		if resign {
 			c.Header.Sign = nil
 			c.Hash = nil
@@ -544,6 +557,12 @@ func (e *env) doForge(tip, back, kind int) {
 			}
 			c.Hash = nil
 			c.Hash = c.BlockHash()
+		}
+		if i == 0 && kind == fTurn {
+			if e.nut.Veto == nil {
+				e.nut.Veto = map[string]bool{}
+			}
+			e.nut.Veto[string(c.BlockHash())] = true
 		}
 		nl := e.label(c, parent, k, l, g.builder)
 		if i > 0 {
